@@ -87,7 +87,8 @@ def gen(rng, i, tier):
     return {"spec": spec, "cseed": rng.randrange(1 << 40), "heat": rng.random() < 0.5, "group": rng.random() < 0.75,
             "render": i % 9 == 0, "hostile": hostile, "current_scale": scale,
             # the drawn system may be the product of an edit history (registries out of node order, index gaps)
-            "history": ["fresh", "identity_change_comp", "index_gaps", "solve_then_move_leaf", "fresh", "solve_then_change_comp"][i % 6]}
+            "history": ["fresh", "identity_change_comp", "index_gaps", "solve_then_move_leaf", "solve_then_phase_conf", "solve_then_change_comp",
+                        "solve_then_retune"][i % 7]}
 
 
 def make_config(rng, ns, spec):
@@ -173,7 +174,12 @@ def hex_rgb(h):
 def run(ctx, case):
     ns = loader.load()
     rng = random.Random(case["cseed"])
-    spec, sysobj = _rows.build_with_history(ctx, case["spec"], case.get("history", "fresh"), case["cseed"] & 0xFFFFFF)
+    def _draw_first(so):
+        # the same kind of diagram is drawn once BEFORE the history's edits (whatever it keeps must not survive them)
+        with H.tmpdir() as d0:
+            (ns.diagram.make_hdiag if case["heat"] else ns.diagram.make_diag)(so, fname=os.path.join(d0, "first.raw"))
+
+    spec, sysobj = _rows.build_with_history(ctx, case["spec"], case.get("history", "fresh"), case["cseed"] & 0xFFFFFF, prefer=_draw_first)
     conf = make_config(rng, ns, spec)
     conf_before = copy.deepcopy(conf)
     heat, grp = case["heat"], case["group"]
